@@ -40,7 +40,9 @@ def varOf (j : Json) : Option (Option Linked) := do
     | [a, b, c] => pure (StructOff.mk (← jNat a) (← jNat b) (← jNat c))
     | _ => none
   let d ← descOf (← field j "desc")
-  pure ((resolve pdos off d).map fun v => ⟨v, ⟨optNat j "assign_in", optNat j "assign_out"⟩⟩)
+  let obj ← fNat j "obj"
+  let dev ← fNat j "dev"
+  pure ((resolve pdos off d).map fun v => ⟨v, ⟨optNat j "assign_in", optNat j "assign_out"⟩, obj, dev⟩)
 
 def opOf (j : Json) : Option Op := do
   match ← fStr j "op" with
@@ -58,6 +60,40 @@ def opOf (j : Json) : Option Op := do
 def commaInts (xs : List Int) : String := ",".intercalate (xs.map toString)
 def commaNats (xs : List Nat) : String := ",".intercalate (xs.map toString)
 
+/-- Python `get` of every linked variable through the (cached) accessors, in index order; `none` if one raises -/
+def readAllC (vars : List Linked) (data : List UInt8) (caches : List PvCache) : Option (List Int) :=
+  let rec go (i : Nat) (fuel : Nat) (caches : List PvCache) (acc : List Int) : Option (List Int) :=
+    match fuel with
+    | 0 => some acc.reverse
+    | fuel + 1 =>
+      match getterStart vars caches i with
+      | .ok (l, s, caches') => go (i + 1) fuel caches' (pyReadAt l.var.size data s :: acc)
+      | .error _ => none
+  go 0 vars.length caches []
+
+def showReads : Option (List Int) → String
+  | some vs => commaInts vs
+  | none => "-"
+
+/-- the accessors an earlier sync group left on the objects: its layout (`assign` per variable), one cycle of the
+statements of its devices on its frame with all DeviceVars zero -/
+def priorCaches (j : Json) (vars : List Linked) (fresh : List PvCache) (ndv : Nat) : Option (List PvCache) :=
+  match field j "prior" with
+  | none => some fresh
+  | some p => do
+    if p.isNull then pure fresh else
+    let assigns ← (← fArr p "assign").mapM fun a => do
+      if a.isNull then pure (Assign.mk none none) else
+      match ← jArr a with
+      | [x, y] => pure (Assign.mk x.getNat?.toOption y.getNat?.toOption)
+      | _ => none
+    let ops ← (← fArr p "ops").mapM opOf
+    let frame ← fBytes p "frame"
+    let vars' := (vars.zip assigns).map fun (l, a) => { l with assign := a }
+    match pyRunC vars' ⟨⟨frame, List.replicate ndv 0⟩, fresh⟩ ops with
+    | .ok cs => pure cs.caches
+    | .error _ => none
+
 def step (j : Json) : Option String := do
   let data ← fBytes j "frame"
   let hdr ← fBytes j "hdr"
@@ -72,22 +108,25 @@ def step (j : Json) : Option String := do
   | some vars =>
     match vars.mapM (fun l => start l.assign l.var), vars.mapM (fun l => progAddr l.assign l.var) with
     | some ss, some as =>
-      let py := pyRun vars ⟨data, dvs.map (·.2)⟩ ops
-      let pr := progRun vars ⟨hdr ++ data, dvs.map fun (f, v) => (f, encLE f.width (ofSigned f.width v))⟩ ops
-      let readAll (st : PyState) : String :=
-        match (List.range vars.length).mapM (pyRead vars st) with
-        | some vs => commaInts vs
-        | none => "-"
-      match pr with
-      | none => pure "bad-index"
-      | some p =>
-        let pyS := match py with
-          | some s => s!"py={hexOfBytes s.data} pyv={commaInts s.dvs} reads={readAll s}"
-          | none => "py=struct-error pyv=- reads=-"
-        -- what Python's get sees in the frame that came back from the program (fast_update)
-        let back : PyState := ⟨p.frame.drop hdr.length, []⟩
-        pure (s!"starts={commaNats ss} addrs={commaNats as} " ++ pyS ++
-              s!" prog={hexOfBytes p.frame} progv={commaInts (p.dvs.map fun (f, mem) => pyGet f mem 0)} reads={readAll back}")
+      let fresh := List.replicate vars.length PvCache.empty
+      match priorCaches j vars fresh dvs.length with
+      | none => pure "prior-error"
+      | some caches =>
+        -- the Python path as the code runs it (accessors cached on the PacketVar objects)
+        let py := pyRunC vars ⟨⟨data, dvs.map (·.2)⟩, caches⟩ ops
+        let pr := progRun vars ⟨hdr ++ data, dvs.map fun (f, v) => (f, encLE f.width (ofSigned f.width v))⟩ ops
+        match pr with
+        | none => pure "bad-index"
+        | some p =>
+          let pyS := match py with
+            | .ok s => s!"py={hexOfBytes s.st.data} pyv={commaInts s.st.dvs} reads={showReads (readAllC vars s.st.data s.caches)}"
+            | .error .structError => "py=struct-error pyv=- reads=-"
+            | .error .assertion => "py=assertion-error pyv=- reads=-"
+            | .error .badIndex => "py=bad-index pyv=- reads=-"
+          -- what Python's get sees in the frame that came back from the program (fast_update; fresh objects)
+          let back := readAllC vars (p.frame.drop hdr.length) fresh
+          pure (s!"starts={commaNats ss} addrs={commaNats as} " ++ pyS ++
+                s!" prog={hexOfBytes p.frame} progv={commaInts (p.dvs.map fun (f, mem) => pyGet f mem 0)} reads={showReads back}")
     | _, _ => pure "key-error"
 
 def main : IO Unit := driverMain step
